@@ -23,6 +23,7 @@ def Second : Duration := 1000000000
 def Minute : Duration := 60 * Second
 def Hour : Duration := 60 * Minute
 def timeUnix (sec nsec : Int) : Time := sec * 1000000000 + nsec
+def timeToUnix (t : Time) : Int := t / 1000000000
 def timeAdd (t : Time) (d : Duration) : Time := t + d
 def timeSub (t u : Time) : Duration := t - u
 def timeAfter (t u : Time) : Bool := decide (u < t)
@@ -50,6 +51,7 @@ inductive Any where
   | bool (b : Bool)
   | arr (xs : List Any)
   | obj (kv : List (Str × Any))
+  | int (i : Int)     -- an `int64` stored in a `map[interface{}]interface{}` (session values; never produced by JSON decoding)
 
 abbrev Obj := List (Str × Any)
 
@@ -57,6 +59,10 @@ abbrev Obj := List (Str × Any)
 def asStr : Any → Str × Bool
   | .str s => (s, true)
   | _ => ([], false)
+/-- `x.(int64)` -/
+def asInt : Any → Int × Bool
+  | .int i => (i, true)
+  | _ => (0, false)
 def asF64 : Any → F64 × Bool
   | .num x => (x, true)
   | _ => (⟨0⟩, false)
@@ -327,6 +333,7 @@ structure SessData where
   accessTokenChunks : List (Int × SessPtr)      -- `map[int]*sessions.Session`
   refreshTokenChunks : List (Int × SessPtr)
   saved : List (Str × GSess)             -- what has been written to the response so far (one Set-Cookie line each), in order
+  generateSecureRandomString : Int → Str × Err   -- crypto/rand (a parameter)
 
 def regGet (reg : List (Str × GSess)) (n : Str) : GSess :=
   match reg.find? (fun p => p.1 == n) with | some p => p.2 | none => ⟨[], 0, true⟩
